@@ -40,17 +40,6 @@ Definition observed (c : case) : gres :=
   | CNary _ _ _ o _ _ _ | CBinary _ o _ _ _ | CStar _ o _ _ _ | CBig _ _ _ o _ _ _ => o
   end.
 
-Definition agree (c : case) : bool := gres_eqb (model c) (observed c).
-Definition mismatches (l : list case) : list nat := mism_idx agree l.
-
-(* ---- property checker on the observation -------------------------------- *)
-
-Fixpoint nodupb (l : list nat) : bool :=
-  match l with
-  | [] => true
-  | x :: r => negb (existsb (Nat.eqb x) r) && nodupb r
-  end.
-
 Fixpoint depths (l : list (nat * nat)) (acc : list nat) : list nat :=
   match l with
   | [] => acc
@@ -64,6 +53,34 @@ Definition level_sizes (l : list (nat * nat)) : list nat :=
       let ds := depths r [0] in
       let m := fold_right Nat.max 0 ds in
       map (fun d => count_occ Nat.eq_dec ds d) (seq 0 (S m))
+  end.
+
+Fixpoint nat_list_eqb (a b : list nat) : bool :=
+  match a, b with
+  | [], [] => true
+  | x :: a', y :: b' => (x =? y) && nat_list_eqb a' b'
+  | _, _ => false
+  end.
+
+Definition agree (c : case) : bool :=
+  gres_eqb (model c) (observed c) &&
+  (* the level sizes the model's loop records are those of the observed tree *)
+  match c with
+  | CBig hosts N nodes (GTree l) _ _ _ =>
+      match gen_big_sizes hosts N nodes with
+      | Some sz => nat_list_eqb sz (level_sizes l)
+      | None => false
+      end
+  | _ => true
+  end.
+Definition mismatches (l : list case) : list nat := mism_idx agree l.
+
+(* ---- property checker on the observation -------------------------------- *)
+
+Fixpoint nodupb (l : list nat) : bool :=
+  match l with
+  | [] => true
+  | x :: r => negb (existsb (Nat.eqb x) r) && nodupb r
   end.
 
 (* every level but the last is full *)
